@@ -5,6 +5,7 @@ package main
 
 import (
 	"fmt"
+	"sort"
 	"strings"
 
 	"github.com/orbs-network/lean-helix-go/services/interfaces"
@@ -16,6 +17,85 @@ import (
 type recStorage struct {
 	*storage.InMemoryStorage
 	node *simNode
+}
+
+// The in-memory storage hands out map contents in Go's random map order. To keep an engine run a function of its seed
+// the wrapper puts each returned list into a canonical order and then permutes it with a PRNG derived from the world
+// seed: every order remains possible, none depends on the process.
+func (s *recStorage) perm(n int) []int { return s.node.w.ord.Perm(n) }
+
+func (s *recStorage) GetPrepareMessages(h primitives.BlockHeight, v primitives.View, x primitives.BlockHash) ([]*interfaces.PrepareMessage, bool) {
+	l, ok := s.InMemoryStorage.GetPrepareMessages(h, v, x)
+	sort.SliceStable(l, func(i, j int) bool {
+		return string(l[i].Content().SignedHeader().BlockHash())+"|"+string(l[i].Content().Sender().MemberId()) < string(l[j].Content().SignedHeader().BlockHash())+"|"+string(l[j].Content().Sender().MemberId())
+	})
+	out := make([]*interfaces.PrepareMessage, len(l))
+	for i, k := range s.perm(len(l)) {
+		out[i] = l[k]
+	}
+	return out, ok
+}
+func (s *recStorage) GetPrepareMessagesFromView(h primitives.BlockHeight, v primitives.View) ([]*interfaces.PrepareMessage, bool) {
+	l, ok := s.InMemoryStorage.GetPrepareMessagesFromView(h, v)
+	sort.SliceStable(l, func(i, j int) bool {
+		return string(l[i].Content().SignedHeader().BlockHash())+"|"+string(l[i].Content().Sender().MemberId()) < string(l[j].Content().SignedHeader().BlockHash())+"|"+string(l[j].Content().Sender().MemberId())
+	})
+	out := make([]*interfaces.PrepareMessage, len(l))
+	for i, k := range s.perm(len(l)) {
+		out[i] = l[k]
+	}
+	return out, ok
+}
+func (s *recStorage) GetCommitMessages(h primitives.BlockHeight, v primitives.View, x primitives.BlockHash) ([]*interfaces.CommitMessage, bool) {
+	l, ok := s.InMemoryStorage.GetCommitMessages(h, v, x)
+	sort.SliceStable(l, func(i, j int) bool {
+		return string(l[i].Content().SignedHeader().BlockHash())+"|"+string(l[i].Content().Sender().MemberId()) < string(l[j].Content().SignedHeader().BlockHash())+"|"+string(l[j].Content().Sender().MemberId())
+	})
+	out := make([]*interfaces.CommitMessage, len(l))
+	for i, k := range s.perm(len(l)) {
+		out[i] = l[k]
+	}
+	return out, ok
+}
+func (s *recStorage) GetCommitMessagesFromView(h primitives.BlockHeight, v primitives.View) ([]*interfaces.CommitMessage, bool) {
+	l, ok := s.InMemoryStorage.GetCommitMessagesFromView(h, v)
+	sort.SliceStable(l, func(i, j int) bool {
+		return string(l[i].Content().SignedHeader().BlockHash())+"|"+string(l[i].Content().Sender().MemberId()) < string(l[j].Content().SignedHeader().BlockHash())+"|"+string(l[j].Content().Sender().MemberId())
+	})
+	out := make([]*interfaces.CommitMessage, len(l))
+	for i, k := range s.perm(len(l)) {
+		out[i] = l[k]
+	}
+	return out, ok
+}
+func (s *recStorage) GetViewChangeMessages(h primitives.BlockHeight, v primitives.View) ([]*interfaces.ViewChangeMessage, bool) {
+	l, ok := s.InMemoryStorage.GetViewChangeMessages(h, v)
+	sort.SliceStable(l, func(i, j int) bool {
+		return string(l[i].Content().Sender().MemberId()) < string(l[j].Content().Sender().MemberId())
+	})
+	out := make([]*interfaces.ViewChangeMessage, len(l))
+	for i, k := range s.perm(len(l)) {
+		out[i] = l[k]
+	}
+	return out, ok
+}
+func (s *recStorage) GetPrepareSendersIds(h primitives.BlockHeight, v primitives.View, x primitives.BlockHash) []primitives.MemberId {
+	l := s.InMemoryStorage.GetPrepareSendersIds(h, v, x)
+	sort.SliceStable(l, func(i, j int) bool { return string(l[i]) < string(l[j]) })
+	out := make([]primitives.MemberId, len(l))
+	for i, k := range s.perm(len(l)) {
+		out[i] = l[k]
+	}
+	return out
+}
+func (s *recStorage) GetCommitSendersIds(h primitives.BlockHeight, v primitives.View, x primitives.BlockHash) []primitives.MemberId {
+	l := s.InMemoryStorage.GetCommitSendersIds(h, v, x)
+	sort.SliceStable(l, func(i, j int) bool { return string(l[i]) < string(l[j]) })
+	out := make([]primitives.MemberId, len(l))
+	for i, k := range s.perm(len(l)) {
+		out[i] = l[k]
+	}
+	return out
 }
 
 func (s *recStorage) StorePreprepare(m *interfaces.PreprepareMessage) bool {
